@@ -10,7 +10,7 @@
 From Coq Require Import List ZArith Bool Sorted Permutation.
 From Mamba Require Import Iter.Model Iter.Enum Iter.Lex Iter.PermUtil Iter.PermEnum
   Iter.IntPartOrder Iter.IntPart Iter.Part Iter.PartBlocks Iter.Colex Iter.MultisetComb
-  Iter.HeapSafe Iter.TopoOrder Iter.TopoStep Iter.TopoEnum.
+  Iter.HeapSafe Iter.HeapEnum Iter.TopoOrder Iter.TopoStep Iter.TopoEnum.
 Import ListNotations.
 Open Scope Z_scope.
 
@@ -74,6 +74,12 @@ Theorem C15_integer_partitions_order : forall x y : list Z,
 Proof. exact plt_std. Qed.
 Print Assumptions C15_integer_partitions_order.
 
+Example C15_integer_partitions_order_nonvacuous : std_lex [3;1;1] [3;2] /\ plt [3;1;1] [3;2].
+Proof.
+  split; [apply std_eq, std_lt; reflexivity|].
+  exists 1%nat. split; [intros [|i] Hi; [reflexivity|inversion Hi as [|? H]; inversion H]|reflexivity].
+Qed.
+
 Example C15_integer_partitions_nonvacuous :
   option_map fst (drain intparts_next intparts_value 8 (intparts_init 5))
   = Some [Some [5]; Some [4;1]; Some [3;2]; Some [3;1;1]; Some [2;2;1]; Some [2;1;1;1]; Some [1;1;1;1;1]].
@@ -119,6 +125,24 @@ Print Assumptions C15_multiset_combinations.
 Example C15_multiset_combinations_nonvacuous :
   option_map fst (drain mcomb_next mcomb_freq 6 (mcomb_init [2;0;1;2] 3))
   = Some [[2;0;1;0]; [2;0;0;1]; [1;0;1;1]; [1;0;0;2]; [0;0;1;2]].
+Proof. vm_compute. reflexivity. Qed.
+
+(* MultisetCombinations through Value(): the slices returned by Value() are [expand 0 v] (i
+   repeated v[i] times, in increasing order of i) for the frequency vectors v of the previous
+   theorem, in the same order, and no multiset is returned twice. *)
+Theorem C15_multiset_combinations_value : forall (m : list Z) (k : Z),
+  Forall (fun v => 0 <= v) m -> 0 <= k ->
+  exists lf e,
+    (forall fuel, (length lf < fuel)%nat ->
+       drain mcomb_next mcomb_value fuel (mcomb_init m k) = Some (map (expand 0) lf, e)) /\
+    (forall x, In x lf <-> mc_F m k x) /\ NoDup lf /\ NoDup (map (expand 0) lf) /\
+    exhausted mcomb_next e.
+Proof. exact mcomb_value_enumerates. Qed.
+Print Assumptions C15_multiset_combinations_value.
+
+Example C15_multiset_combinations_value_nonvacuous :
+  option_map fst (drain mcomb_next mcomb_value 6 (mcomb_init [2;0;1;2] 3))
+  = Some [[0;0;2]; [0;0;3]; [0;2;3]; [0;3;3]; [2;3;3]].
 Proof. vm_compute. reflexivity. Qed.
 
 (* Partitions(n), n >= 1, through Value(): with lr the list of restricted growth strings of the
@@ -167,19 +191,37 @@ Example C15_topological_sorts_nonvacuous :
   = Some [[0;1;2]; [0;2;1]; [1;0;2]].
 Proof. vm_compute. reflexivity. Qed.
 
-(* Permutations(n) (Heap's algorithm), safety half only: from every state reachable from the
-   constructor by calls of Next, the next call does not panic; if it returns true the array is a
-   permutation of 0..n-1; if it returns false every later call returns false.
-   MISSING for the full property: that every permutation is produced, and only once. *)
-Theorem C15_permutations_heap_partial : forall n : nat,
+(* Permutations(n) (Heap's algorithm), every n >= 0: every permutation of 0..n-1 exactly once
+   (no order is documented), then exhaustion for ever. *)
+Theorem C15_permutations_heap : forall n : nat,
+  exists l e,
+    (forall fuel, (length l < fuel)%nat ->
+       drain heap_next heap_value fuel (heap_init n) = Some (l, e)) /\
+    NoDup l /\
+    (forall x, In x l <-> Permutation x (iota n)) /\
+    exhausted heap_next e.
+Proof. exact heap_enumerates. Qed.
+Print Assumptions C15_permutations_heap.
+
+Example C15_permutations_heap_nonvacuous :
+  option_map fst (drain heap_next heap_value 7 (heap_init 3))
+  = Some [[0;1;2]; [1;0;2]; [2;0;1]; [0;2;1]; [1;2;0]; [2;1;0]].
+Proof. vm_compute. reflexivity. Qed.
+
+(* also: from every state reachable by calls of Next the next call is not a panic (safety,
+   independent of the enumeration theorem) *)
+Theorem C15_permutations_heap_safe : forall n : nat,
   forall s, reachable heap_next (heap_init n) s ->
     exists s' b, heap_next s = Some (s', b) /\
       (b = true -> Permutation (heap_value s') (iota n)) /\
       (b = false -> exhausted heap_next s').
 Proof. exact heap_safe. Qed.
-Print Assumptions C15_permutations_heap_partial.
+Print Assumptions C15_permutations_heap_safe.
 
-Example C15_permutations_heap_partial_nonvacuous :
-  option_map fst (drain heap_next heap_value 7 (heap_init 3))
-  = Some [[0;1;2]; [1;0;2]; [2;0;1]; [0;2;1]; [1;2;0]; [2;1;0]].
-Proof. vm_compute. reflexivity. Qed.
+Example C15_permutations_heap_safe_nonvacuous :
+  exists s, reachable heap_next (heap_init 2) s /\ heap_next s = Some (s, false).
+Proof.
+  eexists. split.
+  - eapply reach_step; [eapply reach_step; [eapply reach_step; [apply reach_init|]|]|]; vm_compute; reflexivity.
+  - vm_compute. reflexivity.
+Qed.
